@@ -328,6 +328,29 @@ Fixpoint exec (p : list stmt) (x : args) (w : world) : world * obs :=
                  end
   end.
 
+(* interpretation of the Connection.async_request / sync_request / timed.__call__ skeletons;
+   [cfg] is the connection's configuration, [own] the timed object's self.timeout, [c_timeout] the local variable *)
+Record cframe := { c_w : world; c_timeout : option Z; c_ret : option obs }.
+Definition cexec1 (cfg : string -> option Z) (own : option Z) (sd : N) (s : cstmt) (f : cframe) : cframe :=
+  let w := c_w f in
+  match s with
+  | CReadConfigTimeout key => {| c_w := w; c_timeout := cfg key; c_ret := c_ret f |}
+  | CNewResult => {| c_w := set_res w new_ar; c_timeout := c_timeout f; c_ret := c_ret f |}
+  | CSendRequest => {| c_w := set_now (set_registered w true) (now w + Z.of_N sd); c_timeout := c_timeout f; c_ret := c_ret f |}
+  | CIfTimeoutNotNoneSetExpiry =>
+      match c_timeout f with
+      | None => f
+      | Some _ => {| c_w := ar_set_expiry w (c_timeout f); c_timeout := c_timeout f; c_ret := c_ret f |}
+      end
+  | CSetExpiryOwn => {| c_w := ar_set_expiry w own; c_timeout := c_timeout f; c_ret := c_ret f |}
+  | CAsyncRequestWithTimeout => {| c_w := async_request (c_timeout f) sd w; c_timeout := c_timeout f; c_ret := c_ret f |}
+  | CAsyncProxyCall => {| c_w := async_request None sd w; c_timeout := c_timeout f; c_ret := c_ret f |}
+  | CReturnValue => let (w', o) := q_value w in {| c_w := w'; c_timeout := c_timeout f; c_ret := Some o |}
+  | CReturnRes => f
+  end.
+Definition cexec (cfg : string -> option Z) (own : option Z) (sd : N) (p : list cstmt) (f : cframe) : cframe :=
+  fold_left (fun f s => cexec1 cfg own sd s f) p f.
+
 (* ------------------------------------------------------------------ harness interface *)
 Definition opt_of_sx (x : sx) : option Z := match x with SL [v] => Some (sx_z v) | _ => None end.
 Definition msg_of_sx (x : sx) : Z * msg :=
